@@ -181,6 +181,11 @@ func verifyFunctionCase(prog *Program, ctr *Contracts, key string, disabled map[
 			panic(oos("contract names loop %d but %s has %d loops", n, key, len(fr.loops)))
 		}
 	}
+	for n := range fc.LoopEntry {
+		if n < 1 || n > len(fr.loops) {
+			panic(oos("contract names loop %d but %s has %d loops", n, key, len(fr.loops)))
+		}
+	}
 	st := newState()
 	ex.entry = st
 	fr.st = st
